@@ -2,7 +2,25 @@ import ProcSim.Lemmas.Issue
 /-!
 # C06 — in-order eager issue into the first usable input port
 
-(work in progress)
+For every well-formed processor (names with a strict total order `<`, e.g. `String`), every program and every diagram
+`simulate` hands out (returned, or carried by the stall error):
+
+1. the instructions that appear are a prefix of the program and their first cycles are non-decreasing;
+2. each first appears in an input-boundary port supporting its capability;
+3. if after cycle `t` the next instruction is still outside, every supporting input port is full in the final record of
+   cycle `t`, or needs the memory port for it while *another* instruction entered, in cycle `t`, a unit whose ACL names
+   its capability;
+4. the port an instruction enters was usable at its turn and no supporting port with a smaller name was.
+
+Proof (`Lemmas/Issue.lean`). A diagram comes with its `entered` counters `E 0 = 0 ≤ E 1 ≤ …` (`Diagram_issueFacts`):
+cycle `t` issues exactly the instructions `E t … E (t+1) - 1`, every row `t` hosts only indices `< E (t+1)`, so the
+first cycle of `i` is the `t` with `E t ≤ i < E (t+1)` (`DiagFacts.head_of_issued`, using `RowND` to identify the port).
+The state "at `i`'s turn" is recovered from the final record: everything hosted at that moment has an index `< i`,
+everything appended later an index `≥ i` (`usableP`, `usableP_iff_portUsable`); issue is the last phase changing
+occupancy and relabelling keeps the hosted indices. The threaded memory flag is exact (`MemIff`): set iff some
+instruction has entered (w.r.t. the previous record) a unit whose ACL names its capability — "flag ⇒ entry still there"
+needs the sink-first order `orderOK` (`moveFlights_memIff`). `sortedInputs` is sorted by name, so "precedes in the
+order of trial" contains "has a smaller name" (`mem_pre_of_name_lt`; the only use of the order hypothesis).
 -/
 namespace ProcSim
 open Spec
@@ -179,9 +197,9 @@ theorem C06_ok_iff (c : Ctx N) : (Spec.C06 c).ok = true ↔ C06_Holds c := by
 
 /-! ## The theorems -/
 
-/-- **C06 (readable form).** `ho`: `<` on names is a strict total order (`StrictTotal.string`, `StrictTotal.nat`);
+/-- **C06 (readable form).** `ho`: `<` on names is a strict total order (`Loader.StrictTotal.string`, `Loader.StrictTotal.nat`);
 it is used for the last clause only ("the usable port whose name sorts first"). -/
-theorem C06_issue' (ho : StrictTotal N) (p : Proc N) (prog : List (Instr N)) (tbl : List (Util N)) (stalled : Bool)
+theorem C06_issue' (ho : Loader.StrictTotal N) (p : Proc N) (prog : List (Instr N)) (tbl : List (Util N)) (stalled : Bool)
     (hwf : wfProc p = true) (h : Diagram p prog tbl stalled) : C06_Holds (ctx p prog tbl stalled) := by
   obtain ⟨E, hD, hle⟩ := Diagram_issueFacts hwf h
   have hn := wfProc_nodup_names hwf
@@ -229,7 +247,7 @@ theorem C06_issue' (ho : StrictTotal N) (p : Proc N) (prog : List (Instr N)) (tb
 
 /-- **C06.** For a well-formed processor over names with a strict total order, every diagram of `simulate` passes the
 C06 checker. -/
-theorem C06_issue (ho : StrictTotal N) (p : Proc N) (prog : List (Instr N)) (tbl : List (Util N))
+theorem C06_issue (ho : Loader.StrictTotal N) (p : Proc N) (prog : List (Instr N)) (tbl : List (Util N))
     (stalled : Bool) (hwf : wfProc p = true) (h : Diagram p prog tbl stalled) :
     (Spec.C06 (ctx p prog tbl stalled)).ok = true :=
   (C06_ok_iff _).2 (C06_issue' ho p prog tbl stalled hwf h)
@@ -237,12 +255,12 @@ theorem C06_issue (ho : StrictTotal N) (p : Proc N) (prog : List (Instr N)) (tbl
 /-- C06 for the driver's name type -/
 theorem C06_issue_string (p : Proc String) (prog : List (Instr String)) (tbl : List (Util String)) (stalled : Bool)
     (hwf : wfProc p = true) (h : Diagram p prog tbl stalled) : (Spec.C06 (ctx p prog tbl stalled)).ok = true :=
-  C06_issue StrictTotal.string p prog tbl stalled hwf h
+  C06_issue Loader.StrictTotal.string p prog tbl stalled hwf h
 
 /-- C06 for `Nat` names (the examples) -/
 theorem C06_issue_nat (p : Proc Nat) (prog : List (Instr Nat)) (tbl : List (Util Nat)) (stalled : Bool)
     (hwf : wfProc p = true) (h : Diagram p prog tbl stalled) : (Spec.C06 (ctx p prog tbl stalled)).ok = true :=
-  C06_issue StrictTotal.nat p prog tbl stalled hwf h
+  C06_issue Loader.StrictTotal.nat p prog tbl stalled hwf h
 
 /-! ## Non-vacuity
 
@@ -294,7 +312,7 @@ example : ∃ tbl, Diagram proc prog tbl false ∧ (Spec.C06 (ctx proc prog tbl 
   cases h : simulate proc prog with
   | done tbl =>
     exact ⟨tbl, Or.inl ⟨rfl, h⟩, C06_issue_nat proc prog tbl false (by decide) (Or.inl ⟨rfl, h⟩),
-      C06_issue' StrictTotal.nat proc prog tbl false (by decide) (Or.inl ⟨rfl, h⟩)⟩
+      C06_issue' Loader.StrictTotal.nat proc prog tbl false (by decide) (Or.inl ⟨rfl, h⟩)⟩
   | stall tbl => rw [h] at hd; cases hd
   | fault f => rw [h] at hd; cases hd
 
